@@ -9,7 +9,8 @@ package main
 //            `verifharness rlimit k ...`), or in a directory without write permission as an
 //            unprivileged user, and classifies every file afterwards as old | new | other.
 //
-// input    = "mode=<strace|rlimit|rodir>;limit=<k>;files=<name|content|name|content...>"
+// input    = "mode=<strace|rlimit|rodir|longname>;limit=<k>;[link=1;][procs=<n>;]files=<name|content|name|content...>"
+//            longname: one of the files has a 255-byte name (its temporary file cannot be created: ENAMETOOLONG)
 // observed = "exit=<e> left=<leftover files> finals=<name:class,...> ## <name^parses^new^ops|...>"
 //            new = the expected formatted bytes, computed in-process with syntax.ParseFile +
 //            syntax.FormatFile (not through the binary's write path); ops only for mode=strace.
@@ -89,6 +90,14 @@ func c18Encode(mode string, limit int, names, contents []string) string {
 // link: the paths given to knut are symbolic links (in the target directory) to the journal
 // files, which live in a subdirectory -- journals are often symlinked into a working directory
 func c18EncodeL(mode string, limit int, link bool, names, contents []string) string {
+	return c18EncodeP(mode, limit, link, 0, names, contents)
+}
+
+// procs > 0: the run gets GOMAXPROCS=procs.  `knut format` formats its arguments concurrently, at most GOMAXPROCS
+// at a time: with 1 the files are handled one after the other in one goroutine, so that state kept between files
+// (seeded change C18b-pooled-buffer-leftover: a pooled render buffer that keeps the unwritten rest of a failed
+// write) reaches the next file; with 16 every file has a goroutine of its own.
+func c18EncodeP(mode string, limit int, link bool, procs int, names, contents []string) string {
 	var fs []string
 	for i := range names {
 		fs = append(fs, vesc(names[i]), vesc(contents[i]))
@@ -96,6 +105,9 @@ func c18EncodeL(mode string, limit int, link bool, names, contents []string) str
 	l := ""
 	if link {
 		l = "link=1;"
+	}
+	if procs > 0 {
+		l += fmt.Sprintf("procs=%d;", procs)
 	}
 	return fmt.Sprintf("mode=%s;limit=%d;%sfiles=%s", mode, limit, l, strings.Join(fs, "|"))
 }
@@ -157,7 +169,19 @@ func genC18(out *caseWriter, seed uint64, n int, args []string) error {
 			default:
 				limit = r.intn(maxLen)
 			}
-			out.add(fmt.Sprintf("C18f-%d-%d-%d", seed, g, p), "C18.fault", c18Encode("rlimit", limit, names, contents))
+			out.add(fmt.Sprintf("C18f-%d-%d-%d", seed, g, p), "C18.fault", c18EncodeP("rlimit", limit, false, []int{0, 1, 2}[p%3], names, contents))
+		}
+		if k > 1 {
+			// a failure that hits ONE of several files: a file whose name is so long (255 bytes, NAME_MAX) that the
+			// temporary file next to it cannot be created.  The other files must end new ("a failure on one of
+			// several files does not prevent or corrupt the others"), in both orders and for 1, 2 and 16 procs.
+			long := "j" + strings.Repeat("x", 249) + ".knut"
+			for q, procs := range []int{1, 2, 16} {
+				at := (g + q) % (k + 1)
+				ln := append(append(append([]string{}, names[:at]...), long), names[at:]...)
+				lc := append(append(append([]string{}, contents[:at]...), genC18File(r, false)), contents[at:]...)
+				out.add(fmt.Sprintf("C18n-%d-%d-%d", seed, g, q), "C18.fault", c18EncodeP("longname", 0, false, procs, ln, lc))
+			}
 		}
 		if rodir && g%8 == 0 {
 			out.add(fmt.Sprintf("C18r-%d-%d", seed, g), "C18.fault", c18Encode("rodir", 0, names, contents))
@@ -228,6 +252,10 @@ func obsC18(in string) string {
 	}
 	self, _ := os.Executable()
 	bin := knutBin()
+	var env []string
+	if kv["procs"] != "" {
+		env = []string{"GOMAXPROCS=" + kv["procs"]}
+	}
 	var res vRunResult
 	var ops map[string][]string
 	switch mode {
@@ -236,12 +264,14 @@ func obsC18(in string) string {
 		argv := []string{"strace", "-f", "-s", "4194304", "-xx", "-e",
 			"trace=openat,write,fsync,close,rename,renameat,renameat2,unlink,unlinkat,chmod,fchmod,fchmodat",
 			"-o", st, bin, "format"}
-		res = runCmd(60*time.Second, nil, dir, append(argv, paths...)...)
+		res = runCmd(60*time.Second, env, dir, append(argv, paths...)...)
 		ops = c18MapStrace(st, dir, files)
 		os.Remove(st)
 	case "rlimit":
 		argv := []string{self, "rlimit", kv["limit"], bin, "format"}
-		res = runCmd(20*time.Second, nil, dir, append(argv, paths...)...)
+		res = runCmd(20*time.Second, env, dir, append(argv, paths...)...)
+	case "longname":
+		res = runCmd(20*time.Second, env, dir, append([]string{bin, "format"}, paths...)...)
 	case "rodir":
 		// an unprivileged user, a directory it may read but not write, its own copy of the binary
 		bdir := workTemp("knutverif-c18bin-")
